@@ -1,5 +1,6 @@
 import Geo.Props.C01
 import Geo.Props.C01b
+import Geo.Props.C01c
 #print axioms Geo.T01_1_join_P2P2_incident
 #print axioms Geo.T01_1_join_P2P2_cross
 #print axioms Geo.T01_2_meet_L2L2_incident
@@ -17,3 +18,7 @@ import Geo.Props.C01b
 #print axioms Geo.T01_7_blinn_rank_one
 #print axioms Geo.T01_9_roundtrip_P2
 #print axioms Geo.T01_9_roundtrip_L2
+#print axioms Geo.T01_8_unique_plane
+#print axioms Geo.T01_8_unique_point
+#print axioms Geo.minors4Zero_prop
+#print axioms Geo.T01_8_span_is_unique
